@@ -73,6 +73,16 @@ def twin_check(q, m0, spec, case, gen, variant):
             r["scale_prod_exact_min"] = float((xq._scale.double() * qw._scale.double()).abs().min())
         y = q(x_given)
         yref = twin(x_eff).double()
+        if variant % 2 == 0 and not isinstance(x_given, QBytesTensor):
+            # the same input OBJECT fed again after being overwritten in place (a reused staging buffer): the module must see
+            # the new values, i.e. return what it returns for a fresh tensor holding them
+            keep = x_given.clone()
+            x_given.copy_(torch.flip(keep, dims=[-1]) * 0.5 + 0.25)
+            y_again = q(x_given)
+            y_fresh = q(x_given.clone())
+            same = type(y_again) is type(y_fresh) and bool(torch.equal(deq(y_again).double(), deq(y_fresh).double()))
+            r["reused_input_object_ok"] = same
+            x_given.copy_(keep)
         # magnitude of the accumulated terms (for the rounding tolerance)
         if kind == "ln":
             absref = yref.abs() + (m0.bias.abs().double() if getattr(m0, "bias", None) is not None else 0) + 1.0
